@@ -443,7 +443,7 @@ registry.register("C08", {
     "assumptions": [
         "packet numbers handed to truncate/expand are VarInts (< 2^62), as the PacketNumber type guarantees",
         "txpn: the packet number selection of ApplicationSpace::on_transmit (PTO skip, optimistic-ack skip, abandoned packet) is replayed by the hook driver TxPnDriver, not executed from application.rs itself",
-        "ackmgr: ack::Ranges (IntervalSet with limit) is modelled by its abstract value (sorted disjoint intervals); the judge's ack_deadline statement is evaluated on outputs but not proved of the model; packets at or below the largest acknowledged of an acknowledged ACK frame (RFC 9000 13.2.4) and histories exceeding ack_ranges_limit intervals (13.2.3) are exempt from the completeness part of the deadline judgement",
+        "ackmgr: ack::Ranges (IntervalSet with limit) is modelled by its abstract value (ascending disjoint intervals; max_value as the maximum over the intervals). Judgement exemptions (RFC 9000): packets at or below the largest acknowledged of an ACK frame whose carrier was acknowledged are not owed (13.2.4); once ack_ranges_limit packets have been processed an emitted frame counts as covering every earlier packet (13.2.3, bounded state); losses of carriers that held nothing ack-eliciting are not reported to the manager and do not renew the debt. A covered packet is owed again when every ACK frame covering it travelled in an ack-eliciting packet that was declared lost",
     ],
     "trusted_base": ["no axioms: Print Assumptions reports 'Closed under the global context' for every C08 theorem"],
     "explanation": "Coq theorems C08_* over models of packet/number/*.rs (truncate, expand), space/tx_packet_numbers.rs, ack/ack_manager.rs + ack_transmission_state.rs + core ack/{ranges,transmission,settings}.rs for all numbers below 2^62 and every expansion base; models tied to the source by generated constants and differential execution",
